@@ -500,10 +500,23 @@ def _prep_index(self, indx):
     # According to NumPy indexing rules, if there are non-consecutive array
     # array indices, the array indices are moved to the front of the axis
     # order in the result!
-    if array_inlocs:
-        first_array_loc = array_inlocs[0]
-        diffs = np.diff(array_inlocs)
-        moved_to_front = np.any(diffs > 1) and first_array_loc > 0
+    # first_array_loc is the number of result axes ahead of the first array
+    # index. NumPy also counts integers as array indices and moves the array
+    # axes to the front if a slice, None or Ellipsis stands between any two.
+    arrays = [k for k,p in enumerate(pre_index) if isinstance(p, np.ndarray)]
+    if arrays:
+        ahead = pre_index[:arrays[0]]
+        first_array_loc = len([p for p in ahead if p is None
+                                                  or isinstance(p, slice)])
+        if has_ellipsis and ellipsis_k < arrays[0]:
+            first_array_loc += correction
+        is_adv = [isinstance(p, (numbers.Integral, np.ndarray))
+                  for p in pre_index]
+        adv = np.flatnonzero(is_adv)
+        moved_to_front = (first_array_loc > 0 and
+                          not all(is_adv[arrays[0]:arrays[-1]]))
+        if not moved_to_front and adv[-1] - adv[0] >= len(adv):
+            first_array_loc = 0     # a separate integer index: NumPy's order
     else:
         first_array_loc = 0
         moved_to_front = False
